@@ -294,6 +294,14 @@ impl<'tcx> Cx<'tcx> {
             }
             _ => {}
         }
+        // a reference to a `static` item (`SYMBOLS.iter()`): name the item
+        if let Const::Val(rustc_middle::mir::ConstValue::Scalar(rustc_middle::mir::interpret::Scalar::Ptr(ptr, _)), _) = c {
+            if let Some(rustc_middle::mir::interpret::GlobalAlloc::Static(sd)) =
+                tcx.try_get_global_alloc(ptr.provenance.alloc_id())
+            {
+                items.push(("static", js(&self.path(sd))));
+            }
+        }
         if let Const::Unevaluated(uv, _) = c {
             items.push(("uneval", js(&self.path(uv.def))));
             if let Some(p) = uv.promoted {
@@ -533,6 +541,31 @@ impl<'tcx> Cx<'tcx> {
                 proms.push(jlist(&ks));
             }
             items.push(("promoted", jlist(&proms)));
+            // statics: the promoted bodies hold the table itself (`&[(..), ..]`),
+            // so their assignments are dumped in full
+            if matches!(kind, DefKind::Static { .. }) {
+                let mut pbodies = vec![];
+                for pb in tcx.promoted_mir(did).iter() {
+                    let plocals: Vec<String> =
+                        pb.local_decls.iter().map(|d| js(&self.ty_str(d.ty))).collect();
+                    let mut pst = vec![];
+                    for data in pb.basic_blocks.iter() {
+                        for st in &data.statements {
+                            if let StatementKind::Assign(b) = &st.kind {
+                                let (p, rv) = &**b;
+                                pst.push(jlist(&[
+                                    js("="),
+                                    self.place(pb, p),
+                                    self.rvalue(pb, did, rv),
+                                    self.span_json(st.source_info.span),
+                                ]));
+                            }
+                        }
+                    }
+                    pbodies.push(jobj(&[("locals", jlist(&plocals)), ("stmts", jlist(&pst))]));
+                }
+                items.push(("promoted_bodies", jlist(&pbodies)));
+            }
         }
 
         if !full {
@@ -824,6 +857,19 @@ impl rustc_driver::Callbacks for Cb {
             let did = ld.to_def_id();
             let kind = tcx.def_kind(did);
             let is_fn = matches!(kind, DefKind::Fn | DefKind::AssocFn | DefKind::Closure);
+            if matches!(kind, DefKind::Static { .. }) {
+                // initialiser of a `static` table (e.g. the lexer's spelling
+                // tables): dumped like a function body, kind "Static{..}"
+                let module = cx.path(tcx.parent_module_from_def_id(ld).to_def_id());
+                let generated = module == "parser" || module.starts_with("parser::");
+                if !generated {
+                    let body = tcx.mir_for_ctfe(did);
+                    n_bodies += 1;
+                    n_full += 1;
+                    fns.push(cx.body(ld, body, true));
+                    continue;
+                }
+            }
             if !is_fn {
                 skipped.push(js(&format!("{:?} {}", kind, cx.path(did))));
                 continue;
